@@ -182,6 +182,13 @@ func run(c *core.Ctx) {
 	for k := 0; k < c.N(6, 400); k++ {
 		twoStateCase(c, k, c.Rand("two", k))
 	}
+	gi := 0
+	for _, lim := range []int{1024, 65536, 462000} {
+		for k := 0; k < c.N(3, 60); k++ {
+			gatedCase(c, gi, c.Rand("gated", gi), lim)
+			gi++
+		}
+	}
 	for k := 0; k < c.N(2, 200); k++ {
 		blockFetchFlood(c, k, c.Rand("bf", k))
 	}
@@ -306,6 +313,62 @@ func finish(c *core.Ctx, label string, x *rxRig, sent int, limit int, wit map[st
 	if c.SampleN() < 6 && a.waits > 0 {
 		c.Sample(wit)
 	}
+}
+
+func (a *account) admitCount() int {
+	a.mu.Lock()
+	defer a.mu.Unlock()
+	return a.admits
+}
+
+// gatedCase applies deterministic pressure: the handler holds every third
+// message until the reader has stopped admitting (it is parked in the
+// back-pressure wait, or everything was admitted), so the backlog is as large
+// as the endpoint allows it to become. Messages are about a third of the limit,
+// so the receive queue (55 messages) could hold many times the limit.
+func gatedCase(c *core.Ctx, idx int, r *core.Rand, limit int) {
+	c.Journal("C13 gated case %d limit %d", idx, limit)
+	dbg("gated %d limit %d", idx, limit)
+	cfg := protocol.ProtocolConfig{
+		Name: "vstream", ProtocolId: protoID, Mode: protocol.ProtocolModeNodeToNode, Role: protocol.ProtocolRoleServer,
+		MessageFromCborFunc: protorig.FromCbor, StateMap: protorig.StreamMap(limit, 0), InitialState: protorig.StStream,
+	}
+	var x *rxRig
+	var holds atomic.Int64
+	gate := func(i int64) {
+		if i%3 != 1 {
+			return
+		}
+		holds.Add(1)
+		// wait until no admission happened for 150 ms (at most 3 s)
+		last, since := x.acc.admitCount(), time.Now()
+		for start := time.Now(); time.Since(start) < 3*time.Second; {
+			time.Sleep(5 * time.Millisecond)
+			if n := x.acc.admitCount(); n != last {
+				last, since = n, time.Now()
+			} else if time.Since(since) > 150*time.Millisecond {
+				return
+			}
+		}
+	}
+	x = newRx(cfg, gate)
+	count := r.Range(12, 24)
+	var stream []byte
+	for i := 0; i < count; i++ {
+		enc := limit/3 - r.Intn(limit/16+1)
+		if r.Chance(1, 6) {
+			enc = limit / 2
+		}
+		pl := enc - protorig.EncodedOverhead(enc)
+		if pl < 0 {
+			pl = 0
+		}
+		stream = append(stream, protorig.Encoded(0, make([]byte, pl))...)
+	}
+	go x.ca.Write(segmentize(stream, protoID, false, r.Fork(2)))
+	wit := map[string]any{"case": idx, "seed": c.Seed, "limit": limit, "messages": count, "bytes": len(stream), "scenario": "gated"}
+	finish(c, "gated", x, count, limit, wit)
+	c.Count("gated_handler_holds", int(holds.Load()))
 }
 
 func floodCase(c *core.Ctx, idx int, r *core.Rand, limit int) {
